@@ -1,4 +1,5 @@
 """C05 — evaluation is deterministic, idempotent and order-independent."""
+import gc
 import weakref
 
 from vf.ob import Ob
@@ -11,7 +12,7 @@ EXPLANATION = ('For each pre-compiled model every schedule of evaluate() calls o
                'obligation, the others are symbolic choices (forked). z3 decides on every path that each value equals the independent reference '
                'function of the inputs (hence does not depend on order, repetition or evaluator instance), that constants / formula texts / defined '
                'names / the key set of cells are unchanged, and - structural proxy of the memory clause - that no evaluation context object '
-               'survives the schedule and no container reachable from the evaluator grew when the schedule is repeated.')
+               'survives the schedule (after a cyclic garbage collection where one is needed) and no container reachable from the evaluator grew when the schedule is repeated.')
 ASSUMPTIONS = ['P1, P2', 'memory clause: only the structural proxy (live evaluation contexts counted through weak references; sizes of the evaluator\'s '
                'containers) is decided; RSS / tracemalloc growth is a resource measurement outside this technique']
 TRUSTED = ['Python reference functions per model in props/models.py', 'weak-reference spy on EvaluatorContext.__init__ (harness side)']
@@ -78,6 +79,8 @@ def schedule_obs(mname, length, timeout):
         if sizes1 != sizes2:
             return False                      # something accumulates with repetitions
         if len(LIVE) != 0:
+            gc.collect()                      # an Excel error raised and absorbed leaves a traceback <-> frame cycle: garbage, not growth
+        if len(LIVE) != 0:
             return False                      # evaluation contexts outlive their evaluation
         if snapshot(M, spec) != snap0:
             return False
@@ -96,6 +99,9 @@ def schedule_obs(mname, length, timeout):
                 elif n_in == 2:
                     def h(c2: int, c3: int, two: bool, v0: int, v1: int) -> bool:
                         return run(first, (c2, c3), (v0, v1), two)
+                elif n_in == 3:
+                    def h(c2: int, c3: int, two: bool, v0: int, v1: int, v2: int) -> bool:
+                        return run(first, (c2, c3), (v0, v1, v2), two)
                 else:
                     def h(c2: int, c3: int, two: bool, v0: int, v1: int, v2: int, v3: int) -> bool:
                         return run(first, (c2, c3), (v0, v1, v2, v3), two)
@@ -106,6 +112,9 @@ def schedule_obs(mname, length, timeout):
             elif n_in == 2:
                 def h(c2: int, c3: int, c4: int, two: bool, v0: int, v1: int) -> bool:
                     return run(first, (c2, c3, c4), (v0, v1), two)
+            elif n_in == 3:
+                def h(c2: int, c3: int, c4: int, two: bool, v0: int, v1: int, v2: int) -> bool:
+                    return run(first, (c2, c3, c4), (v0, v1, v2), two)
             else:
                 def h(c2: int, c3: int, c4: int, two: bool, v0: int, v1: int, v2: int, v3: int) -> bool:
                     return run(first, (c2, c3, c4), (v0, v1, v2, v3), two)
